@@ -1300,7 +1300,8 @@ class FlippedInterface:
         """
         if (name in self.__unflipped.signature.members and
                 self.__unflipped.signature.members[name].is_signature):
-            return flipped(getattr(self.__unflipped, name))
+            return _flipped_nested(getattr(self.__unflipped, name),
+                                   self.__unflipped.signature.members[name].dimensions)
         else:
             try: # descriptor first
                 return _gettypeattr(self.__unflipped, name).__get__(self, type(self.__unflipped))
@@ -1318,7 +1319,8 @@ class FlippedInterface:
         """
         if (name in self.__unflipped.signature.members and
                 self.__unflipped.signature.members[name].is_signature):
-            setattr(self.__unflipped, name, flipped(value))
+            setattr(self.__unflipped, name,
+                    _flipped_nested(value, self.__unflipped.signature.members[name].dimensions))
         else:
             try: # descriptor first
                 _gettypeattr(self.__unflipped, name).__set__(self, value)
@@ -1338,6 +1340,14 @@ class FlippedInterface:
 
     def __repr__(self):
         return f"flipped({self.__unflipped!r})"
+
+
+def _flipped_nested(value, dimensions):
+    # A signature member with dimensions corresponds to a (nested) list of interface objects;
+    # each of them is flipped individually.
+    if dimensions and isinstance(value, (list, tuple)):
+        return [_flipped_nested(item, dimensions[1:]) for item in value]
+    return flipped(value)
 
 
 def flipped(interface):
